@@ -253,6 +253,8 @@ func (o Op) String() string {
 			return fmt.Sprintf("DropRowRange(%s,delete_all=false)", short(o.Table))
 		}
 		return fmt.Sprintf("DropRowRange(%s,prefix=%q)", short(o.Table), o.Prefix)
+	case "Shutdown":
+		return "Shutdown()"
 	case "SetClock":
 		return fmt.Sprintf("SetClock(%d)", o.Clock)
 	case "GC":
